@@ -206,8 +206,12 @@ fn parse_hand(n: u64, text: &str) -> String {
     }
 }
 
-/// The crate's answer to one driver request.
+/// The crate's answer to one driver request; a panic anywhere inside the crate is the answer `panic`.
 pub fn answer(req: &str) -> String {
+    guarded(|| answer_inner(req)).unwrap_or_else(|| "panic".to_string())
+}
+
+fn answer_inner(req: &str) -> String {
     let mut it = req.split_whitespace();
     let cmd = match it.next() {
         Some(c) => c,
@@ -265,7 +269,7 @@ pub fn answer(req: &str) -> String {
                 fmt_opt(guarded(|| h.hand_rank_value())),
                 fmt_opt(guarded(|| h.hand_rank_value_validated())),
                 fmt_opt(guarded(|| ckc_rs::evaluate::five_cards(arr))),
-                join([
+                fmt_opt(guarded(|| join([
                     b(h.is_flush()),
                     b(h.is_straight()),
                     b(h.is_straight_flush()),
@@ -276,7 +280,7 @@ pub fn answer(req: &str) -> String {
                     h.or_bits().to_string(),
                     h.or_rank_bits().to_string(),
                     h.multiply_primes().to_string(),
-                ]),
+                ]))),
                 fmt_opt(guarded(|| rank_str(h.hand_rank()))),
                 fmt_opt(guarded(|| rank_str(h.hand_rank_validated()))),
             ])
@@ -499,11 +503,10 @@ fn enum5(a: usize, p: usize) -> String {
                         Some(v) => {
                             let ok = guarded(|| h.hand_rank_value_validated()) == Some(v)
                                 && guarded(|| ckc_rs::evaluate::five_cards(arr)) == Some(v);
-                            v as u32 * 16
-                                + h.is_flush() as u32
-                                + 2 * h.is_straight() as u32
-                                + 4 * h.is_wheel() as u32
-                                + 8 * ok as u32
+                            match guarded(|| (h.is_flush(), h.is_straight(), h.is_wheel())) {
+                                Some((f, st, w)) => v as u32 * 16 + f as u32 + 2 * st as u32 + 4 * w as u32 + 8 * ok as u32,
+                                None => 999998, // a predicate panicked
+                            }
                         }
                     };
                     out.push_str(&code.to_string());
@@ -892,6 +895,12 @@ pub fn find_hangs() -> Option<u64> {
 
 pub fn cases(prop: &str, thorough: bool, seed: u64, c: &mut Cases) {
     let mut rng = Rng::new(seed ^ 0xC0DE);
+    // requests on which model and implementation once disagreed (on some tree) run first
+    if let Ok(text) = std::fs::read_to_string(format!("corpus/{prop}.txt")) {
+        for line in text.lines().filter(|l| !l.trim().is_empty() && !l.starts_with('#')).take(2000) {
+            c.emit("corpus (past disagreements)", line.trim());
+        }
+    }
     if matches!(prop, "C01" | "C02" | "C03" | "C05" | "C09" | "C13") {
         if let Some(k) = find_hangs() {
             // every ranking entry point goes through this loop: report it instead of hanging too
@@ -1294,6 +1303,23 @@ pub fn cases(prop: &str, thorough: bool, seed: u64, c: &mut Cases) {
 }
 
 pub fn sweep(prop: &str, thorough: bool, seed: u64) -> Sweep {
+    match std::panic::catch_unwind(|| sweep_inner(prop, thorough, seed)) {
+        Ok(s) => s,
+        Err(_) => {
+            // a call that the sweep does not guard individually panicked inside the crate
+            let mut s = Sweep::default();
+            s.evaluations = 1;
+            s.nontrivial = 2;
+            s.rule = "the sweep was aborted by a panic raised inside the crate".into();
+            let msg = crate::LAST_PANIC.lock().map(|m| m.clone()).unwrap_or_default();
+            s.fail("a call into the crate panicked where the property requires a normal return", &msg, "returns", "panic");
+            s.sample(msg);
+            s
+        }
+    }
+}
+
+fn sweep_inner(prop: &str, thorough: bool, seed: u64) -> Sweep {
     let _ = (thorough, seed);
     if matches!(prop, "C01" | "C02" | "C03" | "C05" | "C08" | "C09" | "C13" | "C04" | "C06") {
         if let Some(k) = find_hangs() {
@@ -1588,9 +1614,10 @@ fn sweep_c14(seed: u64, thorough: bool) -> Sweep {
     let mut check = |s: &mut Sweep, x: u64, kind: &str| {
         s.evaluations += 1;
         s.count(kind, 1);
-        let got = <CKCNumber as PokerCard>::from_binary_card(x);
-        if got != want_bc(x) {
-            s.fail("from_binary_card", &x.to_string(), &want_bc(x).to_string(), &got.to_string());
+        match guarded(|| <CKCNumber as PokerCard>::from_binary_card(x)) {
+            Some(got) if got == want_bc(x) => {}
+            Some(got) => s.fail("from_binary_card", &x.to_string(), &want_bc(x).to_string(), &got.to_string()),
+            None => s.fail("from_binary_card panics", &x.to_string(), &want_bc(x).to_string(), "panic"),
         }
     };
     check(&mut s, 0, "from_bc/zero");
@@ -1621,7 +1648,7 @@ fn sweep_c14(seed: u64, thorough: bool) -> Sweep {
                 _ => rng.next(),
             };
             let want = if x.count_ones() == 1 && x.trailing_zeros() < 52 { deck[51 - x.trailing_zeros() as usize] } else { 0 };
-            let got = <CKCNumber as PokerCard>::from_binary_card(x);
+            let got = guarded(|| <CKCNumber as PokerCard>::from_binary_card(x)).unwrap_or(u32::MAX);
             if got != want && v.len() < 4 {
                 v.push((x, got));
             }
@@ -1632,7 +1659,7 @@ fn sweep_c14(seed: u64, thorough: bool) -> Sweep {
     s.evaluations += n;
     s.count("from_bc/seeded-64-bit", n);
     for (x, got) in bad {
-        s.fail("from_binary_card", &x.to_string(), &want_bc(x).to_string(), &got.to_string());
+        s.fail("from_binary_card", &x.to_string(), &want_bc(x).to_string(), &(if got == u32::MAX { "panic".to_string() } else { got.to_string() }));
     }
     s.sample(format!("from_ckc({}) = {}", deck[0], <BinaryCard as BC64>::from_ckc(deck[0])));
     s.sample(format!("from_binary_card(1) = {}", <CKCNumber as PokerCard>::from_binary_card(1)));
@@ -1854,7 +1881,10 @@ fn sweep_c13(seed: u64, thorough: bool) -> Sweep {
                                 let arr = [deck[idx[pm[0]]], deck[idx[pm[1]]], deck[idx[pm[2]]], deck[idx[pm[3]]], deck[idx[pm[4]]]];
                                 let h = Five::from(arr);
                                 s.evaluations += 1;
-                                let got = (h.is_flush(), h.is_straight(), h.is_straight_flush(), h.is_wheel(), ckc_rs::evaluate::is_flush(arr), ckc_rs::evaluate::or_rank_bits(arr) as u32);
+                                let Some(got) = guarded(|| (h.is_flush(), h.is_straight(), h.is_straight_flush(), h.is_wheel(), ckc_rs::evaluate::is_flush(arr), ckc_rs::evaluate::or_rank_bits(arr) as u32)) else {
+                                    s.fail("a predicate panics on five distinct real cards", &join(arr), "returns", "panic");
+                                    continue;
+                                };
                                 let want = (flush, straight, straight && flush, wheel, flush, mask);
                                 if got != want {
                                     s.fail("predicate differs from the cards (flush, straight, straight_flush, wheel, evaluate::is_flush, evaluate::or_rank_bits)", &join(arr), &format!("{want:?}"), &format!("{got:?}"));
@@ -1886,9 +1916,9 @@ fn sweep_c13(seed: u64, thorough: bool) -> Sweep {
     s.count("slot-orders-per-hand", perms.len() as u64);
     s.rule = format!("all 2,598,960 five-card hands x {} slot orders: four predicates and two deprecated free functions against suits/rank sets read from the layout, and against the category of hand_rank(); non-trivial = the hand is a straight or a flush", perms.len());
     let h = Five::from([deck[8], deck[9], deck[23], deck[38], deck[51]]);
-    s.sample(format!("6S 5S 4H 2D 2C: is_straight = {}", h.is_straight()));
+    s.sample(format!("6S 5S 4H 2D 2C: is_straight = {:?}", guarded(|| h.is_straight())));
     let w = Five::from([deck[0], deck[9], deck[23], deck[37], deck[51]]);
-    s.sample(format!("AS 5S 4H 3D 2C: is_straight = {}, is_wheel = {}", w.is_straight(), w.is_wheel()));
+    s.sample(format!("AS 5S 4H 3D 2C: is_straight = {:?}, is_wheel = {:?}", guarded(|| w.is_straight()), guarded(|| w.is_wheel())));
     s
 }
 
@@ -2328,6 +2358,63 @@ fn sweep_sixseven(prop: &str, seed: u64, thorough: bool) -> Sweep {
         for p in parts { total.merge(p); }
         total.count("seven-card hands (all, canonical order)", 133_784_560);
     }
+    // shape-rich hands in EVERY slot order: six or seven cards holding five, six or seven suited cards in a
+    // row (the ace also low): several straight flushes at once, steel wheels, an extending sixth card ...
+    // A shortcut keyed on such a shape and on the slot layout shows here and almost nowhere else.
+    let checked_profile = std::env::var("CKC_PROFILE").map(|p| p != "release").unwrap_or(false);
+    let mut shaped: Vec<Vec<usize>> = Vec::new();
+    let idx_of = |r: usize, su: usize| (3 - su) * 13 + (12 - (r % 13));
+    for su in 0..4usize {
+        for len in [5usize, 6, 7] {
+            for lo in 0..=(14 - len) {
+                // ranks lo-1 .. lo+len-2, rank -1 being the ace playing low
+                let run: Vec<usize> = (0..len).map(|k| if lo == 0 && k == 0 { idx_of(12, su) } else { idx_of(lo + k - 1, su) }).collect();
+                if len == 7 { shaped.push(run.clone()); }
+                if len >= 6 { shaped.push(run[..6].to_vec()); }
+                if len == 6 {
+                    for x in 0..52 { if !run.contains(&x) { let mut h = run.clone(); h.push(x); shaped.push(h); } }
+                }
+                if len == 5 {
+                    // a straight flush plus one card (six slots); plus two cards (seven slots) for a thinned-out set of extras
+                    for x in 0..52 {
+                        if run.contains(&x) { continue; }
+                        let mut h = run.clone(); h.push(x); shaped.push(h.clone());
+                        for y in (x + 1..52).step_by(if thorough { 1 } else if checked_profile { 23 } else { 7 }) {
+                            if !run.contains(&y) { let mut g = h.clone(); g.push(y); shaped.push(g); }
+                        }
+                    }
+                }
+            }
+        }
+    }
+    shaped.sort();
+    shaped.dedup();
+    let n_shaped = shaped.len() as u64;
+    let parts: Vec<Sweep> = par_ranges(n_shaped, threads() * 4, |lo, hi| {
+        let mut s = Sweep::default();
+        for h in &shaped[lo as usize..hi as usize] {
+            // all permutations (Heap's algorithm)
+            let mut a = h.clone();
+            let n = a.len();
+            let mut c = vec![0usize; n];
+            check(&a, &mut s);
+            let mut i = 0;
+            while i < n {
+                if c[i] < i {
+                    if i % 2 == 0 { a.swap(0, i); } else { a.swap(c[i], i); }
+                    check(&a, &mut s);
+                    c[i] += 1;
+                    i = 0;
+                } else {
+                    c[i] = 0;
+                    i += 1;
+                }
+            }
+        }
+        s
+    });
+    for p in parts { total.merge(p); }
+    total.count("hands with 5/6/7 suited cards in a row (+ extras), every slot order (720 / 5040 each)", n_shaped);
     // seeded hands in seeded slot orders
     let n_seeded: u64 = if thorough { 20_000_000 } else { 2_000_000 };
     let parts: Vec<Sweep> = par_ranges(n_seeded, threads(), |lo, hi| {
